@@ -72,9 +72,24 @@ class ScriptedReader:
 
 
 class Sink:
+    """file-like / socket-like sink; `.raw` is the unbuffered stream under it, whose writes may be short"""
+
     def __init__(self) -> None:
         self.buf = bytearray()
         self.calls = 0
+        sink = self
+
+        class Raw:
+            def write(self, data):
+                data = bytes(data)[:65536]
+                sink.calls += 1
+                sink.buf += data
+                return len(data)
+
+            def flush(self):
+                return None
+
+        self.raw = Raw()
 
     def write(self, data):
         self.calls += 1
